@@ -324,3 +324,27 @@ class Index:
     """DatetimeIndex view: the index of `origin`"""
     def __init__(self, origin: Vec):
         self.origin = origin
+
+
+class QList:
+    """symbolic list whose elements are drawn from an input sequence: element p is input[src(p)]; `idf(j)` is the integer
+    id of input element j (ModelingObject / attached-value ids are compared with ==).  Used by the list profile (chains)."""
+    def __init__(self, n, src, idf, name="qlist"):
+        self.n, self.src, self.idf, self.name = n, src, idf, name
+
+
+class QElem:
+    def __init__(self, lst, j):
+        self.lst, self.j = lst, j      # j: index in the INPUT sequence
+
+
+class QIds:
+    """[x.id for x in qlist] (optionally sliced lo:hi)"""
+    def __init__(self, lst, lo=None, hi=None):
+        self.lst, self.lo, self.hi = lst, lo, hi
+
+
+class Havoc:
+    """predicate-style loop invariant for one variable: fresh value + facts about it at iteration i"""
+    def __init__(self, make, pred):
+        self.make, self.pred = make, pred
